@@ -410,4 +410,14 @@ example :
     g'.statusOf 0 = some .canc ∧ g'.statusOf 1 = some .canc ∧ g'.statusOf 3 = some .done ∧
     g'.statusOf 100 = some .run := by decide
 
+/-- `Action.cancelRem` (another task calls `cancel_remaining()`; every theorem above quantifies
+over it too): member 0 is reacting slowly to that sweep when `join()` starts - join sees it
+pending, parks, and `joined` stays false until it has finished -/
+example :
+    let g := (runAll (init .all) [.spawn 0 false [], .cancelRem [0], .join []]).1
+    let g' := (runAll (init .all) [.spawn 0 false [], .cancelRem [0], .join [], .finCancel 0 []]).1
+    g.statusOf 0 = some .canc ∧ g.pending = [0] ∧ g.joined = false ∧
+    g.joiner.map (fun j => (j.phase, j.blocked)) = some (.next, true) ∧
+    g'.joined = true ∧ g'.statusOf 0 = some .done := by decide
+
 end Aiorpcx.C09
